@@ -8,10 +8,10 @@
 #include "zlib.h"
 
 /* ---------- payloads ---------- */
-#define NPAY 7
+#define NPAY 9
 static uint8_t *pl_data[NPAY];
 static size_t pl_len[NPAY];
-static const char *const pl_name[NPAY] = {"empty", "1byte", "tiny4", "noise100", "rep400", "mixed500", "wide5000"};
+static const char *const pl_name[NPAY] = {"empty", "1byte", "tiny4", "noise100", "rep400", "mixed500", "wide5000", "noise65530", "rep70000"};
 
 static uint8_t lcg(uint32_t *s)
 {
@@ -57,6 +57,15 @@ static void build_payloads(void)
 	memcpy(pl_data[6] + 4872, pl_data[6] + 0, 128);
 	memcpy(pl_data[6] + 3000, pl_data[6] + 1000, 128);
 	memcpy(pl_data[6] + 1900, pl_data[6] + 1200, 128);
+	/* noise65530: incompressible and just below 64 KiB - its compressed form is longer than 65535 bytes, so the frame needs the 64-bit
+	 * length although the payload itself would not; rep70000: the opposite case (payload above 64 KiB, compressed form tiny) */
+	pl_len[7] = 65530;
+	pl_data[7] = h_malloc(65530);
+	s = 4711;
+	for (int i = 0; i < 65530; i++) pl_data[7][i] = lcg(&s);
+	pl_len[8] = 70000;
+	pl_data[8] = h_malloc(70000);
+	for (int i = 0; i < 70000; i++) pl_data[8][i] = (uint8_t)"{\"jet\":1}"[i % 9];
 }
 
 /* ---------- client compressor / decompressor ---------- */
